@@ -11,7 +11,7 @@ of a comparison, boolean test, string function, xsl:value-of, AVT, numeric sort 
 with the XPath conversion of the node-set computed here from the document (vlib/xpref number/string conversions).
 A failing sequence is shrunk to the shortest prefix+suffix that still fails before it is written as the replay.
 """
-import json, math, os, xml.etree.ElementTree as ET
+import json, math, os, random, xml.etree.ElementTree as ET
 from vlib import core, xpref, xsltrun
 
 XSL = 'xmlns:xsl="http://www.w3.org/1999/XSL/Transform"'
@@ -185,6 +185,77 @@ def shrink(tag, items, steps, i):
     return keep
 
 
+# ---- numeric sort keys that use current(): the number entry point is called with every sorted node as context, and the
+# current node of the key expression is that node (XSLT 1.0 section 10), whatever the current node of the template is (seed C11_g)
+SORT_KEYS = [
+    ("current()", lambda items, i: xpref.str_to_num(items[i][1])),
+    ("number(current()) * -1", lambda items, i: -xpref.str_to_num(items[i][1])),
+    ("key('p', current()/@id)", lambda items, i: xpref.str_to_num(nodes_for(items, items[i][0])[0])),
+    ("string-length(current())", lambda items, i: float(len(items[i][1]))),
+    ("count(current()/preceding-sibling::p) mod 3", lambda items, i: float(i % 3)),
+    ("sum(current()/@n)", lambda items, i: float(i * 7 % 5)),
+    (".", lambda items, i: xpref.str_to_num(items[i][1])),
+]
+
+
+def sort_sheet(keys):
+    loops = "".join('<s n="%d"><xsl:for-each select="/doc/p"><xsl:sort select="%s" data-type="number"/><xsl:value-of select="count(preceding-sibling::p)"/>,</xsl:for-each></s>'
+                    '<t n="%d"><xsl:apply-templates select="/doc/p" mode="m"><xsl:sort select="%s" data-type="number" order="descending"/></xsl:apply-templates></t>'
+                    % (k, esc(e, False), k, esc(e, False)) for k, (e, _) in enumerate(keys))
+    return ('<xsl:stylesheet version="1.0" %s><xsl:output method="xml" omit-xml-declaration="yes"/><xsl:key name="p" match="p" use="@id"/>'
+            '<xsl:template match="p" mode="m"><xsl:value-of select="count(preceding-sibling::p)"/>,</xsl:template>'
+            '<xsl:template match="/"><out>%s</out></xsl:template></xsl:stylesheet>' % (XSL, loops))
+
+
+def sort_doc(items):
+    return "<doc>" + "".join('<p id="%s" n="%d">%s</p>' % (k, i * 7 % 5, v) for i, (k, v) in enumerate(items)) + "</doc>"
+
+
+def sorted_order(vals, descending):
+    # stable; NaN sorts before every number in ascending order (and therefore last in descending order)
+    def cmp_key(j):
+        v = vals[j]
+        return (0, 0.0) if v != v else (1, v)
+    idx = list(range(len(vals)))
+    if not descending:
+        return sorted(idx, key=cmp_key)
+    return sorted(idx, key=lambda j: ((1, 0.0) if vals[j] != vals[j] else (0, -vals[j])))
+
+
+def run_sorts(ctx, r, n):
+    jobs, meta = [], {}
+    for q in range(n):
+        items = gen_doc(r)
+        keys = r.sample(SORT_KEYS, 3)
+        tag = "so%d" % q
+        meta[tag] = (items, keys)
+        jobs.append({"id": tag, "sheet": sort_sheet(keys), "source": sort_doc(items)})
+    res = xsltrun.run(jobs)
+    bad = []
+    for tag, (items, keys) in meta.items():
+        out = res.get(tag)
+        if out is None or out[0] != "ok":
+            bad.append("# the transformation did not succeed: %r\n%s\n%s" % (out[:1] if out else None, sort_doc(items), sort_sheet(keys)))
+            continue
+        root = ET.fromstring(out[1].decode("utf-8"))
+        for k, (e, f) in enumerate(keys):
+            vals = [f(items, i) for i in range(len(items))]
+            for el, desc in (("s", False), ("t", True)):
+                ctx.cov["evaluations"] += 1
+                ctx.count("seq:sort-current" if "current()" in e else "seq:sort-plain")
+                node = root.find("%s[@n='%d']" % (el, k))
+                got = (node.text or "") if node is not None else None
+                want = "".join("%d," % j for j in sorted_order(vals, desc))
+                if got != want:
+                    bad.append("# <xsl:sort select=\"%s\" data-type=\"number\"%s/> over %s: order %r, the numbers %s sort as %r\n# stylesheet:\n%s" % (
+                        e, ' order="descending"' if desc else "", sort_doc(items), got, [nstr(v) for v in vals], want, sort_sheet(keys)))
+    if bad:
+        ctx.violation("sortkey", "# C11: a numeric sort key does not have the number of the expression evaluated with the sorted node as context AND current node\n"
+                                 "# replay: run the stylesheet over the source; <s n=k> / <t n=k> list count(preceding-sibling::p) of the nodes in sorted order\n"
+                      + "\n".join(bad[:10]))
+    ctx.notes["sortkey_failures"] = len(bad)
+
+
 def run_part(ctx):
     r = ctx.rng
     n_seq, n_steps = (300, 60) if not (ctx.thorough or ctx.escalated) else (6000, 80)
@@ -242,6 +313,7 @@ def run_part(ctx):
                                   "# replay: python3 check.py C11 --replay <this file>  (re-runs every #SEQ line), or run the stylesheet over the source with the Xalan executable and compare attribute v of each <l> with the expected value\n"
                       + "\n".join(txt))
     ctx.notes["sequence_failures"] = len(failures)
+    run_sorts(ctx, random.Random(r.getrandbits(64)), 60 if not (ctx.thorough or ctx.escalated) else 2000)
 
 
 def replay(ctx, path):
